@@ -141,7 +141,7 @@ func (s usStep) String() string {
 var usEdits = map[string][][]hist.Edit{
 	"object":    {{{K: "oset", Key: "k1", V: 7}}, {{K: "odel", Key: "k1"}}, {{K: "oset", Key: "k2", V: 9}}},
 	"array":     {{{K: "ains", I: 0, V: 5}}, {{K: "adel", I: 0}}, {{K: "aadd", V: 8}}},
-	"text":      {{{K: "tedit", I: 1, J: 0, S: "x"}}, {{K: "tedit", I: 0, J: 1, S: ""}}, {{K: "tedit", I: 1, J: 1, S: "yz"}}},
+	"text":      {{{K: "tedit", I: 1, J: 0, S: "x"}}, {{K: "tedit", I: 0, J: 1, S: ""}}, {{K: "tedit", I: 1, J: 1, S: "yz"}}, {{K: "tedit", I: 0, J: 2, S: ""}}},
 	"counter":   {{{K: "cinc", V: 3}}, {{K: "ninc", V: -2}}},
 	"tree":      {{{K: "xtxt", I: 1, S: "e"}}, {{K: "xdel", I: 1, J: 1, V: 1}}, {{K: "xelm", I: 1, S: "k"}}},
 	"arraymove": {{{K: "amov", I: 0, J: 1}}, {{K: "adel", I: 1}}, {{K: "ains", I: 1, V: 4}}},
